@@ -1,4 +1,5 @@
 import TinsModel.Checksum.Packet
+import TinsModel.Checksum.Crc
 import TinsModel.Gen.TagsC05
 /-
   Code-shaped model of `PDU::serialize` (src/pdu.cpp) and of the `header_size` / `trailer_size` /
@@ -8,7 +9,8 @@ import TinsModel.Gen.TagsC05
     UDP (src/udp.cpp), ICMP (src/icmp.cpp) + ICMPExtensionsStructure (src/icmp_extension.cpp), ICMPv6 (src/icmpv6.cpp,
     the message types without type-specific bodies), RawPDU, PPPoE (src/pppoe.cpp), MPLS (src/mpls.cpp),
     Dot3 (src/dot3.cpp), SNAP (src/snap.cpp), SLL (src/sll.cpp), Loopback (src/loopback.cpp), IPSecAH / IPSecESP
-    (src/ipsec.cpp).
+    (src/ipsec.cpp), LLC (src/llc.cpp, the `LLC(dsap, ssap)` object: information format, two zero control octets),
+    RC4EAPOL (src/eapol.cpp), RadioTap (src/radiotap.cpp, the default-constructed object with or without the FCS flag).
 
   `PDU::serialize(buffer, total_sz)` first serialises the inner PDU at `buffer + header_size()` and then calls
   `write_serialization`, which writes the header (and trailer) around it and computes checksums over the bytes
@@ -43,6 +45,21 @@ def pduToEther (l : Layer) : Nat :=
 def flagToIp (l : Layer) : Nat := (lookupTag TagsC05.flagToIp l.kind).getD 0xff
 
 /-! ### sizes -/
+
+/-- `options_payload_` of the default-constructed `RadioTap` (channel 1 / 0xa0, flags, tsft 0, dbm_signal -50, rx_flags 0,
+    antenna 0 — `RadioTap::RadioTap()`), with `flags(FrameFlags(0))` applied on top when `fcs` is off: the present word
+    (TSFT, FLAGS, CHANNEL, DBM_SIGNAL, ANTENNA, RX_FLAGS), then the fields at their natural alignment -/
+def radiotapPayload (fcs : Bool) : Bytes :=
+  [0x2b, 0x48, 0, 0,  0, 0, 0, 0, 0, 0, 0, 0,  (if fcs then 0x10 else 0), 0,  0x6c, 0x09, 0xa0, 0x00,  0xce, 0,  0, 0]
+
+/-- `RadioTap::trailer_size()`: `skip_to_field(FLAGS)` finds the FLAGS field (present bit 1) after the present word and
+    the 8-octet TSFT (present bit 0); `(flags_value & FCS) != 0` → `sizeof(uint32_t)` -/
+def radiotapTrailer (payload : Bytes) : Nat :=
+  let present := (payload.getD 0 0).toNat
+  if present / 2 % 2 = 1 then
+    let off := if present % 2 = 1 then 4 + 8 else 4
+    if (payload.getD off 0).toNat / 16 % 2 = 1 then 4 else 0
+  else 0
 
 def ipOptSize (opts : List (Nat × Bytes)) : Nat :=        -- IP::calculate_options_size
   -- `!is_single_byte_option`: copied != 0 || op_class != CONTROL || number > NOOP (fix KF-C02-Ip-1: same test as the writer)
@@ -80,7 +97,10 @@ def headerSize : Layer → Nat
   | .sll .. => 16
   | .ah _ _ icv _ => 12 + icv.length
   | .esp .. => 8
-  | _ => 0
+  | .llc .. => 3 + 1                                        -- sizeof(header_) + control_field_length_ (INFORMATION: 2)
+  | .eapol _ key => 5 + 43 + key.length                     -- sizeof(eapol_header) + sizeof(rc4_eapol_header) + key_.size()
+  | .radiotap fcs => 4 + (radiotapPayload fcs).length      -- sizeof(header_) + options_payload_.size()
+  | .opaque .. => 0
 
 /-- `Internals::get_padded_icmp_inner_pdu_size(inner_pdu(), alignment)` -/
 def paddedInner (inner : Option Nat) (align : Nat) : Nat :=
@@ -111,6 +131,7 @@ def trailerSize (l : Layer) (inner : Option Nat) : Nat :=
       extStructSize exts + (match inner with
         | none => 0
         | some sz => (if paddedInner inner 8 > 128 then paddedInner inner 8 else 128) - sz)
+  | .radiotap fcs => radiotapTrailer (radiotapPayload fcs)
   | _ => 0
 
 /-- `PDU::size()` of the stack -/
@@ -135,13 +156,27 @@ def optsModelled : Layer → Bool
   | _ => true
 
 def kindModelled : Layer → Bool
-  | .llc .. | .radiotap .. | .eapol .. | .opaque .. => false
+  | .opaque .. => false
   | _ => true
 
 def parentOf : Layer → Parent
   | .ip _ _ _ _ _ _ src dst _ => .ip4 src dst
   | .ip6 _ _ _ _ src dst _ => .ip6 src dst
   | _ => .other
+
+/-- what the `tins_cast<const IP*>(parent_pdu())` / `tins_cast<const IPv6*>(parent_pdu())` of the checksum tails see for the
+    enclosing layer `p` (it is also the parent the RFC dissector hands to the first layer of the carried stack) -/
+def walkPar (p : Option Layer) : Parent :=
+  match p with
+  | some q => parentOf q
+  | none => .other
+
+/-- the next-header octet in front of a (rest of a) chain of extension headers: the type of its first header, `last` when
+    the chain is empty — what the fixed header and every extension header carry -/
+def nextOf (es : List (Nat × Bytes)) (last : Nat) : Nat :=
+  match es with
+  | [] => last
+  | (t, _) :: _ => t
 
 /-- the next-header values written into the IPv6 extension chain: header X carries the type of header X+1 and the
     last one the tag of the inner PDU (`set_last_next_header`) -/
@@ -158,6 +193,63 @@ def writeIp6Ext (nextAndData : Nat × Bytes) : Bytes :=     -- IPv6::write_heade
 
 /-! ### `write_serialization` -/
 
+/-- the octet `ICMP::write_serialization` leaves in the RFC 4884 length position (`user` = what the object holds there: the
+    low octet of the identifier, or 1 after `use_length_field(true)`): for the extensible types, when the field is in use
+    or the original datagram is longer than 128 octets, the padded size of the inner PDU in 32-bit words (at least 128
+    octets when an extension structure follows), stored in an 8-bit field -/
+def icmpLengthOctet (type : Nat) (lenflag : Bool) (user : Nat) (innerSz : Option Nat) (exts : List (Nat × Nat × Bytes)) : Nat :=
+  let allowed := type = 3 ∨ type = 11 ∨ type = 12                   -- are_extensions_allowed()
+  let b5 := if lenflag then 1 else user                             -- use_length_field(true) stores 1 in the length octet
+  let lengthValue := paddedInner innerSz 4
+  if allowed ∧ (b5 ≠ 0 ∨ lengthValue > 128) then
+    (if lengthValue ≠ 0 then (if !exts.isEmpty then (if lengthValue > 128 then lengthValue else 128) else lengthValue)
+     else 0) / 4 % 256
+  else b5
+
+/-- the same octet of `ICMPv6::write_serialization` (types 1 and 3, 64-bit words) -/
+def icmp6LengthOctet (type : Nat) (lenflag : Bool) (user : Nat) (innerSz : Option Nat) (exts : List (Nat × Nat × Bytes)) : Nat :=
+  let allowed := type = 1 ∨ type = 3
+  let b4 := if lenflag then 1 else user
+  let lengthValue := paddedInner innerSz 8
+  if allowed ∧ (b4 ≠ 0 ∨ lengthValue > 128) then
+    (if lengthValue > 0 ∧ !exts.isEmpty then (if lengthValue > 128 then lengthValue else 128) else lengthValue) / 8 % 256
+  else b4
+
+/-- what ICMP / ICMPv6 write behind the inner PDU when there are extensions: zero padding of the original datagram to 128
+    octets or its own padded size (`unit` = 4 / 8), then the extension structure -/
+def rfc4884Tail (unit : Nat) (innerSz : Option Nat) (exts : List (Nat × Nat × Bytes)) : Bytes :=
+  if exts.isEmpty then [] else
+    (match innerSz with
+      | none => []
+      | some sz => zeros ((if paddedInner innerSz unit > 128 then paddedInner innerSz unit else 128) - sz))
+    ++ writeExtStruct exts
+
+/-- the protocol octet `IP::write_serialization` stores: the number of the inner PDU's class when it has one -/
+def ipProtoField (proto : Nat) (rest : List Layer) : Nat :=
+  match rest.head? with
+  | none => 0
+  | some n => if flagToIp n ≠ 0xff then flagToIp n else proto
+
+/-- the next-header value of the last header of the IPv6 chain (`set_last_next_header`) -/
+def ip6LastNextHeader (nh : Nat) (rest : List Layer) : Nat :=
+  match rest.head? with
+  | none => 59                                                      -- NO_NEXT_HEADER: nothing follows
+  | some n => if flagToIp n ≠ 0xff then flagToIp n else nh
+
+/-- the `payload_type` `EthernetII::write_serialization` stores: PPPoE by its stage, two 802.1Q tags as 802.1ad, otherwise
+    the table of `pdu_flag_to_ether_type`; the user's value when the class has no EtherType -/
+def ethPayloadType (type : Nat) (rest : List Layer) : Nat :=
+  match rest.head? with
+  | none => TagsC05.ethUNKNOWN                                     -- payload_type(Constants::Ethernet::UNKNOWN)
+  | some n =>
+    let f := match n with
+      | .pppoe code .. => if code = 0 then TagsC05.ethPPPOES else TagsC05.ethPPPOED
+      | .dot1q .. => (match (rest.drop 1).head? with
+          | some (.dot1q ..) => TagsC05.ethQINQ
+          | _ => flagToEther n)
+      | n => flagToEther n
+    if f ≠ TagsC05.ethUNKNOWN then f else type
+
 /-- `write_serialization(buffer, total_sz)` of layer `l`: `inner` are the bytes the inner PDU has already written at
     `buffer + header_size()`, `rest` the inner stack, `parent` the enclosing layer.  Returns the whole buffer. -/
 def write (l : Layer) (rest : List Layer) (inner : Bytes) (parent : Option Layer) : Bytes :=
@@ -167,16 +259,7 @@ def write (l : Layer) (rest : List Layer) (inner : Bytes) (parent : Option Layer
   let totalSz := headerSize l + inner.length + trl
   match l with
   | .eth dst src type =>
-    let flag := match nxt with
-      | none => TagsC05.ethUNKNOWN                                     -- payload_type(Constants::Ethernet::UNKNOWN)
-      | some n =>
-        let f := match n with
-          | .pppoe code .. => if code = 0 then TagsC05.ethPPPOES else TagsC05.ethPPPOED
-          | .dot1q .. => (match (rest.drop 1).head? with
-              | some (.dot1q ..) => TagsC05.ethQINQ
-              | _ => flagToEther n)
-          | n => flagToEther n
-        if f ≠ TagsC05.ethUNKNOWN then f else type
+    let flag := ethPayloadType type rest
     dst ++ src ++ w16 flag ++ inner ++ zeros trl
   | .dot1q prio cfi id type _ =>
     let flag := match nxt with
@@ -184,21 +267,15 @@ def write (l : Layer) (rest : List Layer) (inner : Bytes) (parent : Option Layer
       | some n => if pduToEther n ≠ TagsC05.ethUNKNOWN then pduToEther n else type
     [b8 (prio % 8 * 32 + cfi % 2 * 16 + id % 4096 / 256), b8 (id % 256)] ++ w16 flag ++ inner ++ zeros trl
   | .ip tos id flags fragoff ttl proto src dst opts =>
-    let proto := match nxt with
-      | none => 0
-      | some n => if flagToIp n ≠ 0xff then flagToIp n else proto
+    let proto := ipProtoField proto rest
     let hs := headerSize l
     let hdr := [b8 (4 * 16 + hs / 4 % 16), b8 tos] ++ w16 totalSz ++ w16 id ++ w16 (flags % 8 * 8192 + fragoff % 8192)
       ++ [b8 ttl, b8 proto, 0, 0] ++ src ++ dst
     let o := writeTlvOpts opts
     ipTail (hdr ++ o ++ zeros (pad4 (ipOptSize opts) - ipOptSize opts) ++ inner) hs
   | .ip6 tc flow hop nh src dst exts =>
-    let lastNh := match nxt with
-      | none => 59                                                      -- NO_NEXT_HEADER: nothing follows
-      | some n => if flagToIp n ≠ 0xff then flagToIp n else nh
-    let first := match exts with
-      | [] => lastNh
-      | (t, _) :: _ => t
+    let lastNh := ip6LastNextHeader nh rest
+    let first := nextOf exts lastNh
     [b8 (6 * 16 + tc / 16 % 16), b8 (tc % 16 * 16 + flow / 65536 % 16), b8 (flow / 256), b8 flow]
       ++ w16 (totalSz - 40) ++ [b8 first, b8 hop] ++ src ++ dst
       ++ ((ip6Chain exts lastNh).map writeIp6Ext).flatten ++ inner
@@ -208,45 +285,25 @@ def write (l : Layer) (rest : List Layer) (inner : Bytes) (parent : Option Layer
     let hdr := w16 sp ++ w16 dp ++ w32 seq ++ w32 ack ++ [b8 (doff * 16 + flags / 256 % 16), b8 flags]
       ++ w16 win ++ [0, 0] ++ w16 urg
     let buf := hdr ++ writeTlvOpts opts ++ zeros (pad4 osz - osz) ++ inner
-    tcpTail (match parent with | some p => parentOf p | none => .other) buf totalSz
+    tcpTail (walkPar parent) buf totalSz
   | .udp sp dp =>
     let buf := w16 sp ++ w16 dp ++ w16 (8 + (innerSz.getD 0)) ++ [0, 0] ++ inner
-    udpTail (match parent with | some p => parentOf p | none => .other) buf totalSz
+    udpTail (walkPar parent) buf totalSz
   | .icmp type code id seq a b c lenflag exts =>
-    let allowed := type = 3 ∨ type = 11 ∨ type = 12                   -- are_extensions_allowed()
-    let b5 := if lenflag then 1 else id % 256                         -- use_length_field(true) stores 1 in the length octet
-    let lengthValue := paddedInner innerSz 4
-    let b5 := if allowed ∧ (b5 ≠ 0 ∨ lengthValue > 128) then
-        (if lengthValue ≠ 0 then (if !exts.isEmpty then (if lengthValue > 128 then lengthValue else 128) else lengthValue)
-         else 0) / 4 % 256
-      else b5
+    let b5 := icmpLengthOctet type lenflag (id % 256) innerSz exts
     let hdr := [b8 type, b8 code, 0, 0, b8 (id / 256), b8 b5] ++ w16 seq
     let extra := if type = 13 ∨ type = 14 then w32 a ++ w32 b ++ w32 c
       else if type = 17 ∨ type = 18 then w32 a else []
-    let tail := if exts.isEmpty then [] else
-      (match innerSz with
-        | none => []
-        | some sz => zeros ((if paddedInner innerSz 4 > 128 then paddedInner innerSz 4 else 128) - sz))
-      ++ writeExtStruct exts
-    icmpTail (hdr ++ extra ++ inner ++ tail)
+    icmpTail (hdr ++ extra ++ inner ++ rfc4884Tail 4 innerSz exts)
   | .icmp6 type code id seq lenflag exts =>
-    let allowed := type = 1 ∨ type = 3
-    let b4 := if lenflag then 1 else id / 256 % 256
-    let lengthValue := paddedInner innerSz 8
-    let b4 := if allowed ∧ (b4 ≠ 0 ∨ lengthValue > 128) then
-        (if lengthValue > 0 ∧ !exts.isEmpty then (if lengthValue > 128 then lengthValue else 128) else lengthValue) / 8 % 256
-      else b4
+    let b4 := icmp6LengthOctet type lenflag (id / 256 % 256) innerSz exts
     let hdr := [b8 type, b8 code, 0, 0, b8 b4, b8 id] ++ w16 seq
-    let tail := if exts.isEmpty then [] else
-      (match innerSz with
-        | none => []
-        | some sz => zeros ((if paddedInner innerSz 8 > 128 then paddedInner innerSz 8 else 128) - sz))
-      ++ writeExtStruct exts
-    icmp6Tail (match parent with | some p => parentOf p | none => .other) (hdr ++ inner ++ tail) totalSz
+    icmp6Tail (walkPar parent) (hdr ++ inner ++ rfc4884Tail 8 innerSz exts) totalSz
   | .raw d => d ++ inner
-  | .pppoe code sess plen tags =>
+  | .pppoe code sess _ tags =>
     let tagsSize := headerSize l - 6
-    let plen := if tagsSize > 0 ∨ !rest.isEmpty then totalSz - 6 else plen
+    -- `if (tags_size_ > 0 || inner_pdu()) payload_length(total_sz - sizeof(header_)); else payload_length(0);`
+    let plen := if tagsSize > 0 ∨ !rest.isEmpty then totalSz - 6 else 0
     [0x11, b8 code] ++ w16 sess ++ w16 plen
       ++ tags.foldr (fun (t, d) acc => w16 t ++ w16 d.length ++ d ++ acc) [] ++ inner
   | .mpls label exp bos ttl =>
@@ -277,7 +334,19 @@ def write (l : Layer) (rest : List Layer) (inner : Bytes) (parent : Option Layer
       | some n => if flagToIp n ≠ 0xff then flagToIp n else nh
     [b8 nh, b8 ((12 + icv.length) / 4 - 2), 0, 0] ++ w32 spi ++ w32 seq ++ icv ++ inner
   | .esp spi seq => w32 spi ++ w32 seq ++ inner
-  | _ => inner
+  | .llc dsap ssap => [b8 dsap, b8 ssap] ++ [0, 0] ++ inner          -- header_, control_field.info (zero-initialised)
+  | .eapol keylen key =>
+    -- EAPOL::write_serialization: length(total_sz - 4); version 1, packet type 3 (key), descriptor type RC4 (1);
+    -- RC4EAPOL::write_body: key_length is the size of the key when there is one
+    let kl := if key.isEmpty then keylen else key.length
+    [1, 3] ++ w16 (totalSz - 4) ++ [1] ++ w16 kl ++ zeros 8 ++ zeros 16 ++ [0] ++ zeros 16 ++ key ++ inner
+  | .radiotap fcs =>
+    let payload := radiotapPayload fcs
+    let hs := headerSize l
+    let hdr := [0, 0, b8 hs, b8 (hs / 256)] ++ payload                  -- it_len = host_to_le<uint16_t>(header_size())
+    -- `if (trailer_size() > 0 && inner_pdu())` the CRC-32 of the inner bytes, little-endian; the buffer is zero otherwise
+    if trl > 0 ∧ !rest.isEmpty then hdr ++ inner ++ w32le (crc32 inner).toNat else hdr ++ inner ++ zeros trl
+  | .opaque .. => inner
 
 /-- `PDU::serialize(buffer, total_sz)`: the inner PDU first, then this layer's `write_serialization` -/
 def serialize : List Layer → Option Layer → Bytes
